@@ -456,8 +456,9 @@ pub fn apply_s<T: Cellish>(op: &Op, slots: &mut Vec<SS<T>>, id0: u64, pending: &
                 skip()
             }
         },
+        // capacity is not something std promises to match: push exactly when the bumpalo side did (`do=1`)
         "vec_push" => match &mut slots[s] {
-            SS::Vec(v) if v.len() < v.capacity() => {
+            SS::Vec(v) if op.u("do") == 1 => {
                 cr(|| v.push(T::mk(id0, x)));
                 out("ok")
             }
@@ -598,9 +599,9 @@ pub fn apply_s<T: Cellish>(op: &Op, slots: &mut Vec<SS<T>>, id0: u64, pending: &
         }
         "ptrfmt" => {
             let (pb, pp) = match &slots[s] {
-                SS::Box0(b) => (format!("{:p}", b), format!("{:p}", &**b as *const T)),
-                SS::Slice(b, _) => (format!("{:p}", b), format!("{:p}", &**b as *const [T])),
-                SS::Str(b) => (format!("{:p}", b), format!("{:p}", &**b as *const str)),
+                SS::Box0(b) => (format!("{:p}", *b), format!("{:p}", &**b as *const T)),
+                SS::Slice(b, _) => (format!("{:p}", *b), format!("{:p}", &**b as *const [T])),
+                SS::Str(b) => (format!("{:p}", *b), format!("{:p}", &**b as *const str)),
                 _ => return skip(),
             };
             out(if pb == pp { "ok same" } else { "ok differ" })
